@@ -6,6 +6,7 @@ text is within its fragment, by cvc5.  sat results are re-solved in process to o
 a model for the replay."""
 import os
 import shutil
+import threading
 import subprocess
 import tempfile
 import time
@@ -190,20 +191,57 @@ def _run_cli(cmd, path, timeout_s):
     return head, time.time() - t0, detail
 
 
+_GEN_LOCK = threading.Lock()
+
+
+def _aux(ob, path, kind):
+    """auxiliary query files are written on demand (most obligations are decided by the first query): the z3 Python API is
+    not re-entrant, hence the lock"""
+    suffix = {'core': '.core.smt2', 'nobg': '.nobg.smt2', 'slim1': '.slim1.smt2', 'slim2': '.slim2.smt2', 'slim3': '.slim3.smt2'}[kind]
+    out = path.replace('.smt2', suffix)
+    if os.path.exists(out):
+        return out
+    with _GEN_LOCK:
+        if os.path.exists(out):
+            return out
+        try:
+            if kind == 'core':
+                cf = core_formulas(ob)
+                if not cf:
+                    return None
+                sc = z3.Solver()
+                for f in cf:
+                    sc.add(f)
+                text = sc.to_smt2()
+            elif kind == 'nobg':
+                text = build_solver(ob, background=False).to_smt2()
+            else:
+                if len(ob.pc) + len(ob.facts or []) <= 12:
+                    return None
+                if kind == 'slim3' and not ob.facts:
+                    return None
+                text = build_solver(ob, slim={'slim1': 1, 'slim2': 2, 'slim3': 'pc'}[kind]).to_smt2()
+        except Exception:
+            return None
+        with open(out, 'w') as fh:
+            fh.write(text)
+    return out
+
+
 def _decide(args):
     ob, path, timeout_s = args
     total = 0.0
     # quantifier-free arithmetic core first (cheap; uninterpreted terms abstracted): sound for unsat only
-    cp = path.replace('.smt2', '.core.smt2')
-    if os.path.exists(cp):
+    cp = _aux(ob, path, 'core')
+    if cp:
         st4, sec4, _ = _run_cli([Z3_CLI, '-T:3'], cp, 3)
         total += sec4
         if st4 == 'unsat':
             return Verdict(ob, 'unsat', 'z3-5.1/qf-core', total)
     if ob.kind == 'hint':
         # proof steps are mostly pointwise arithmetic that needs none of the quantified lemma library: try without it first
-        nb0 = path.replace('.smt2', '.nobg.smt2')
-        if os.path.exists(nb0):
+        nb0 = _aux(ob, path, 'nobg')
+        if nb0:
             st0, sec0, _ = _run_cli([Z3_CLI, '-T:3'], nb0, 3)
             total += sec0
             if st0 == 'unsat':
@@ -221,8 +259,8 @@ def _decide(args):
             return Verdict(ob, 'unsat', 'z3-4.8.12', total)
     if ob.kind == 'hint' and timeout_s <= 10:
         # proof steps are optional: a step that does not go through quickly is simply not used
-        nb = path.replace('.smt2', '.nobg.smt2')
-        if os.path.exists(nb):
+        nb = _aux(ob, path, 'nobg')
+        if nb:
             st5, sec5, _ = _run_cli([Z3_CLI, '-T:5'], nb, 5)
             total += sec5
             if st5 == 'unsat':
@@ -231,8 +269,8 @@ def _decide(args):
     if z3.is_false(ob.goal):
         # "this path is infeasible": only the path condition matters - one more attempt on the path condition and the lemma
         # instances alone, then give up (the long ladder below is for goals with content)
-        sp = path.replace('.smt2', '.slim3.smt2')
-        if os.path.exists(sp):
+        sp = _aux(ob, path, 'slim3')
+        if sp:
             st3, sec3, _ = _run_cli([Z3_CLI, '-T:%d' % max(5, timeout_s // 2)], sp, max(5, timeout_s // 2))
             total += sec3
             if st3 == 'unsat':
@@ -252,21 +290,21 @@ def _decide(args):
             return Verdict(ob, 'unsat', 'z3-5.1/no-mbqi', total)
     # the obligation without the quantified lemma library (many obligations need none of it, and its nested quantifiers can
     # keep the solver busy): sound for unsat only
-    nb = path.replace('.smt2', '.nobg.smt2')
-    if os.path.exists(nb):
+    nb = _aux(ob, path, 'nobg')
+    if nb:
         st5, sec5, _ = _run_cli([Z3_CLI, '-T:4'], nb, 4)
         total += sec5
         if st5 == 'unsat':
             return Verdict(ob, 'unsat', 'z3-5.1/no-library', total)
-    if os.path.exists(cp):
+    if cp:
         st4, sec4, _ = _run_cli([Z3_CLI, '-T:%d' % max(3, timeout_s // 2)], cp, max(3, timeout_s // 2))
         total += sec4
         if st4 == 'unsat':
             return Verdict(ob, 'unsat', 'z3-5.1/qf-core', total)
     # relevance-filtered query (fewer hypotheses: sound for unsat, never used for sat)
     for lvl in (1, 2, 3):
-        sp = path.replace('.smt2', '.slim%d.smt2' % lvl)
-        if os.path.exists(sp):
+        sp = _aux(ob, path, 'slim%d' % lvl)
+        if sp:
             st3, sec3, _ = _run_cli([Z3_CLI, '-T:%d' % max(3, timeout_s // 2)], sp, max(3, timeout_s // 2))
             total += sec3
             if st3 == 'unsat':
@@ -309,29 +347,26 @@ def discharge(obligations, timeout_s=10, jobs=16, keep_dir=None):
                     out[k] = Verdict(ob, 'unsat', 'simplifier', 0.0)
                     ob.proved = True
                     continue
-                s = build_solver(ob)
-                path = os.path.join(tmp, 'q%04d.smt2' % k)
-                with open(path, 'w') as fh:
-                    fh.write(s.to_smt2())
+                # quantifier-free core, in process, tiny budget: decides the bulk of the simple obligations without
+                # writing a file or starting a solver process (sound for unsat only)
                 try:
                     cf = core_formulas(ob)
                 except Exception:
                     cf = None
                 if cf:
                     sc = z3.Solver()
+                    sc.set('timeout', 250)
                     for f in cf:
                         sc.add(f)
-                    with open(path.replace('.smt2', '.core.smt2'), 'w') as fh:
-                        fh.write(sc.to_smt2())
-                with open(path.replace('.smt2', '.nobg.smt2'), 'w') as fh:
-                    fh.write(build_solver(ob, background=False).to_smt2())
-                if len(ob.pc) + len(ob.facts or []) > 12:
-                    for lvl in (1, 2):
-                        with open(path.replace('.smt2', '.slim%d.smt2' % lvl), 'w') as fh:
-                            fh.write(build_solver(ob, slim=lvl).to_smt2())
-                    if ob.facts:
-                        with open(path.replace('.smt2', '.slim3.smt2'), 'w') as fh:
-                            fh.write(build_solver(ob, slim='pc').to_smt2())
+                    t0 = time.time()
+                    if sc.check() == z3.unsat:
+                        out[k] = Verdict(ob, 'unsat', 'z3-5.1/qf-core(in-process)', time.time() - t0)
+                        ob.proved = True
+                        continue
+                s = build_solver(ob)
+                path = os.path.join(tmp, 'q%04d.smt2' % k)
+                with open(path, 'w') as fh:
+                    fh.write(s.to_smt2())
                 t = timeout_s if ob.kind != 'hint' else min(timeout_s, 10)
                 work.append((k, (ob, path, t)))
             with ThreadPoolExecutor(max_workers=jobs) as ex:
